@@ -1742,7 +1742,8 @@ func (st *fstate) builtin(in ssa.Instruction, name string, c *ssa.CallCommon, re
 		st.addObj(res, so)
 		// append(x[:k], …) with a two-index re-slice: the elements of x beyond k are spare capacity of the
 		// operand, so the append overwrites x's own elements in place whenever they fit
-		if sl, ok := c.Args[0].(*ssa.Slice); ok && sl.High != nil && sl.Max == nil {
+		// (the operand may reach the append through the φ of an accumulating loop: `out := x[:0]; for … { out = append(out, e) }`)
+		for _, sl := range shortenedOrigins(c.Args[0]) {
 			if _, isArr := sl.X.Type().Underlying().(*types.Pointer); !isArr {
 				st.mut(st.get(sl.X), elemType(res.Type()), in, "append onto a shortened re-slice x[:k] writes the elements of x beyond k", nil)
 			}
@@ -2184,4 +2185,34 @@ func (e *e3Engine) appendsTo(f *ssa.Function, j int) bool {
 		e.appCache[key] = 2
 	}
 	return res
+}
+
+// shortenedOrigins: the two-index re-slices x[:k] (k given, no capacity limit) that v is, or accumulates from through
+// φs and earlier appends
+func shortenedOrigins(v ssa.Value) []*ssa.Slice {
+	var out []*ssa.Slice
+	seen := map[ssa.Value]bool{}
+	var walk func(v ssa.Value, d int)
+	walk = func(v ssa.Value, d int) {
+		if v == nil || seen[v] || d > 8 {
+			return
+		}
+		seen[v] = true
+		switch x := v.(type) {
+		case *ssa.Slice:
+			if x.High != nil && x.Max == nil {
+				out = append(out, x)
+			}
+		case *ssa.Phi:
+			for _, e := range x.Edges {
+				walk(e, d+1)
+			}
+		case *ssa.Call:
+			if b, ok := x.Call.Value.(*ssa.Builtin); ok && b.Name() == "append" && len(x.Call.Args) > 0 {
+				walk(x.Call.Args[0], d+1)
+			}
+		}
+	}
+	walk(v, 0)
+	return out
 }
